@@ -1,6 +1,7 @@
 import NauyacaVerif.Srv.ConnMore
 import NauyacaVerif.Srv.SegProof
 import NauyacaVerif.Srv.PumpProof
+import NauyacaVerif.Srv.FlowProof
 import NauyacaVerif.Gen.Params
 
 /-! # C01  Exactly one well-formed Gemini response per connection -/
@@ -74,4 +75,30 @@ theorem pump_silent_before_handshake (cfg : Cfg) (evs : List PEv) (h : (pumpRun 
   | none => rfl
   | some i => have := (pumpRun_pinv cfg evs).innerAfterHs (by simp [hi]); simp [h] at this
 
+
+/-! ### the write pump under flow control (responses are handed to the transport piece by piece) -/
+theorem writeChunk_tie : Flow.writeChunk = Gen.writeChunk := by decide
+
+/-- the pieces of a response are its header and its body, nothing lost, no piece above `WRITE_CHUNK_SIZE` -/
+theorem flow_pieces (r : Resp) :
+    (Flow.pieces r).flatten = (render r).1 ++ (render r).2 ∧ ∀ p ∈ Flow.chunk Flow.writeChunk (render r).2, p.length ≤ Flow.writeChunk :=
+  ⟨Flow.pieces_flatten r, Flow.chunk_size _⟩
+
+/-- whatever the transport does (signal pause during any write, resume at any time, disconnect): the writes are a
+    prefix, in order, of the pieces, and `close` appears only after ALL of them — never a half-written response
+    followed by a close, never bytes after the close -/
+theorem flow_writes_prefix (evs : List Flow.FEv) :
+    ∃ k, (Flow.frun evs).out = ((Flow.frun evs).all.take k).map .write ++ (if (Flow.frun evs).closed then [.close] else []) ∧
+      ((Flow.frun evs).closed = true → k = (Flow.frun evs).all.length) := Flow.writes_prefix evs
+
+theorem flow_closed_complete (evs : List Flow.FEv) (hc : (Flow.frun evs).closed = true) :
+    (Flow.frun evs).out = (Flow.frun evs).all.map .write ++ [.close] := Flow.closed_complete evs hc
+
+/-- nothing is written while the transport has paused writing, after the close or after a disconnect -/
+theorem flow_quiet (s : Flow.FSt) (e : Flow.FEv) (hp : s.paused = true ∨ s.closed = true ∨ s.lost = true) (he : e ≠ .resume) :
+    (Flow.fstep s e).out = s.out := Flow.quiet_when_paused s e hp he
+
+/-- progress: when the transport resumes and does not pause again the response is completed and closed -/
+theorem flow_resume_finishes (s : Flow.FSt) (hs : s.started = true) (hl : s.lost = false) (hc : s.closed = false) (hb : s.budget = none) :
+    (Flow.fstep s .resume).closed = true ∧ (Flow.fstep s .resume).unsent = [] := Flow.resume_finishes s hs hl hc hb
 end NauyacaVerif.C01
